@@ -45,6 +45,7 @@ Reply at the end with a short summary: for each change, one paragraph (what, tri
 EMPHASIS = {
     4: """is of a kind that a randomised (property-based) harness with good generators would still be UNLIKELY to catch. Earlier rounds already used, and the harness now covers, these mechanisms -- do NOT reuse them: results memoised/cached on an object or in the module and not invalidated by attribute assignment or in-place edits; Dask task-name collisions when several results are computed in one graph; UTC leap-second days; -0.0; inputs of unusual but value-preserving kind (float32/int64 Quantities, non-interned strings, byte-swapped arrays, NumPy integer scalars, scaled dimensionless units, angles in degrees); `where=` ufunc calls; metadata dict merging; array sizes beyond an internal batch threshold; empty other axes; huge dynamic range between columns. Look instead for: accuracy that degrades gradually (an algebraically equivalent but numerically worse formula whose error exceeds the property's stated bound only in some region of the input space -- large magnitudes, long signals, extreme ratios of two parameters, sample rates or frequencies near the ends of the quantified range); an off-by-one or strict/non-strict comparison that matters only for a particular combination of two parameters; a difference between two equivalent ways of calling the same thing (method vs function, keyword vs positional, axis given by name / non-negative int / negative int, scalar vs length-1 array, Python list vs array, unit spelled differently); wrong handling of one particular signal subclass or sample-shape rank while the others stay right; an error path that leaves partial state behind or swallows an error and returns plausible data; a result that is right but no longer lazy / no longer a view / of another dtype or container only under some option; two features that each work alone and fail only together. Silently wrong results are preferred over exceptions. The two changes should have different root causes and live in different functions where possible.""",
     5: """is of a kind that a randomised (property-based) harness with good generators would still be UNLIKELY to catch. Four earlier rounds already used, and the harness now covers, these mechanisms -- do NOT reuse them: caches/memoisation not invalidated by attribute assignment or in-place edits; Dask task-name collisions; UTC leap-second days; -0.0; value-preserving unusual input kinds (float32/int Quantities, non-interned strings, byte-swapped arrays, NumPy integer scalars incl. narrow ones, scaled dimensionless units, angles in degrees, integer-valued samples); `where=`; metadata dict merging; sizes beyond internal batch thresholds (2^16, 2^22 elements, 2^20-sample segments); empty axes; huge dynamic range; formulas whose accuracy decays with magnitude/length; relative tolerances (isclose/allclose defaults) that grow with the argument; rejected setter assignments leaving partial state; positional-vs-keyword arguments; ufunc-vs-operator spelling; partially supplied `out=`; non-finite samples; unsorted file lists; mutated caller-owned kwargs dicts; infinite reference frequency; DM in other units. Look instead for: behaviour at the very ends of the quantified range (length 0/1/2, a single channel, the first or last sample/channel/bin only, the smallest/largest rates and dates); parity (odd vs even N, channel count, segment length) in one branch only; a sign/orientation/ordering convention flipped in one code path only (one class, one backend, one alignment, one axis position, negative axis numbers); outputs that alias the input's memory (or one another) so that a LATER in-place edit of one silently changes the other, or outputs that are read-only / non-contiguous where a copy is promised; astropy semantics (Time `precision`/`format`/`scale`/`location` attributes and masked or array-valued Times, Quantity equivalencies and logarithmic/structured units, `Angle` wrapping) handled in one place and not another; a result that depends on global state of the numeric stack (np.errstate, warnings turned into errors, print options, default dtype of an empty list) or on argument OBJECT identity (the same object passed twice, a subclass instance, a read-only array, a zero-dimensional array, an iterator instead of a sequence); wrong exception TYPE or a refusal that should not happen for a valid boundary input; thread-safety of a shared buffer under the threaded scheduler. Silently wrong results are preferred over exceptions. The two changes should have different root causes and live in different functions where possible.""",
+    6: """is of a kind that a randomised (property-based) harness with good generators would still be UNLIKELY to catch. Five earlier rounds already used, and the harness now covers, these mechanisms -- do NOT reuse them: caches/memoisation not invalidated by attribute assignment or in-place edits; Dask task-name collisions and late-bound closures in lazy graphs; UTC leap-second days; time scales other than UTC (TAI/TT) for start times and query times, Time format/precision/location attributes; -0.0; value-preserving unusual input kinds (float32/int Quantities, non-interned strings and NumPy string arrays, byte-swapped arrays, NumPy integer scalars incl. narrow ones, scaled dimensionless units, angles in degrees, integer-valued samples, complex-typed real factors); `where=`; partially supplied `out=`; in-place and `out=` forms of Phase arithmetic incl. remainder; metadata dict merging and caller-owned kwargs dicts; sizes beyond internal thresholds (2^16, 2^22 elements, 2^20-sample segments, 10^6-sample signals); empty axes and empty signals; huge dynamic range; formulas whose accuracy decays with magnitude/length/time span; relative tolerances that grow with the argument; rejected setter assignments leaving partial state; positional-vs-keyword arguments; ufunc-vs-operator spelling; non-finite samples; unsorted file lists; infinite reference frequency; DM in other units; module-level scratch buffers and per-thread state under threads; results that alias their input's memory (NOT counted as a violation: the library itself returns views for slices and no-op calls -- do not produce aliasing-only changes); dependence on np.errstate / warnings filters / print options; read-only input buffers; call-order dependence of the fast-length functions. Look instead for: (1) interactions ACROSS modules -- a change in a helper, base class or mixin (core.py, utils.py, fft.py, readers/_base.py) that looks harmless where it is made and breaks this property only through one particular caller; (2) copying and serialisation -- copy.copy / copy.deepcopy / pickle of signals, phases, readers, predictors and dispersion measures, and using the copy afterwards; (3) Python protocols -- len(), bool(), iteration, `in`, hashing, equality, repr/str/format round trips, indexing with unusual but valid index objects (np.int64, Ellipsis, boolean masks, negative steps where allowed, tuples with None); (4) subclassing -- a user-defined subclass of a signal class or of Phase passed where the base class is expected, and the class/metadata of the result; (5) one complex width only (complex64 vs complex128), one Dask chunk layout only (a chunk of size 1, the last chunk smaller than the others, a chunked trailing axis), one alignment/parity combination only; (6) sequences in which the SAME argument object is passed twice (e.g. concatenate([z, z2]) where z2 is z, np.add(z, z), a shift array that is a view of the data). Silently wrong results are preferred over exceptions. The two changes should have different root causes and live in different functions where possible. In addition (optional, at the end of your reply and in notes.md): if, while reading or probing the UNMODIFIED library, you notice an input for which it already violates the property above, describe it in two or three lines with the exact call that shows it.""",
 }
 
 
